@@ -3862,6 +3862,75 @@ let nx_edges g =
 let varlike_id s =
   (&&) (negb (head_is '`' s)) (has_char '[' s)
 
+(** val parse_tindex : char list -> pidx **)
+
+let parse_tindex inner = match inner with
+| [] -> IStr inner
+| c::rest ->
+  if (=) c 't'
+  then (match rest with
+        | [] -> IInt Z0
+        | _::_ ->
+          (match py_int rest with
+           | Some z0 ->
+             if eqb0 (idx_body (IInt z0)) inner then IInt z0 else IStr inner
+           | None -> IStr inner))
+  else IStr inner
+
+(** val verb_body : char list -> char list **)
+
+let verb_body whole =
+  drop_last (match whole with
+             | [] -> []
+             | _::r -> r)
+
+(** val tok_of_match : tmatch -> ntok option **)
+
+let tok_of_match m =
+  match m.mkind with
+  | KVerbatim -> Some (NVerb (verb_body m.mname))
+  | KKeyword -> Some (NKw m.mname)
+  | KFunction -> Some (NFunc m.mname)
+  | KVariable ->
+    (match m.mindex with
+     | Some inner -> Some (NTerm (m.mname, (parse_tindex inner)))
+     | None -> None)
+  | _ -> None
+
+(** val toks_of_items : item list -> ntok list option **)
+
+let rec toks_of_items = function
+| [] -> Some []
+| i :: r ->
+  (match i with
+   | Chr c ->
+     (match toks_of_items r with
+      | Some t -> Some ((NChr c) :: t)
+      | None -> None)
+   | Tok (_, m) ->
+     (match tok_of_match m with
+      | Some x ->
+        (match toks_of_items r with
+         | Some t -> Some (x :: t)
+         | None -> None)
+      | None -> None))
+
+(** val tokenise : char list -> neq option **)
+
+let tokenise e =
+  match find_any '=' e with
+  | Some p ->
+    let (l, r) = p in
+    (match toks_of_items (scan_items l) with
+     | Some a ->
+       (match toks_of_items (scan_items r) with
+        | Some b ->
+          let q = { nlhs = a; nrhs = b } in
+          if (&&) (neq_wf q) (eqb0 (neq_text q) e) then Some q else None
+        | None -> None)
+     | None -> None)
+  | None -> None
+
 (** val idx_text : char list -> char list -> char list -> char list **)
 
 let idx_text w1 inner w2 =
@@ -4151,3 +4220,49 @@ let dq_ok_canon q =
 
 let denorm_canon q =
   denorm_text canon q
+
+(** val is_blank_tok : ntok -> bool **)
+
+let is_blank_tok = function
+| NChr c -> is_space c
+| _ -> false
+
+(** val skip_blank_toks : ntok list -> ntok list **)
+
+let rec skip_blank_toks l = match l with
+| [] -> []
+| x :: r -> if is_blank_tok x then skip_blank_toks r else l
+
+(** val styled : layout -> ntok -> bool **)
+
+let styled lay = function
+| NTerm (name, i) ->
+  (match (lay name i).lstyle with
+   | SVar -> false
+   | _ -> true)
+| _ -> false
+
+(** val is_kw_tok : ntok -> bool **)
+
+let is_kw_tok = function
+| NKw _ -> true
+| _ -> false
+
+(** val sep_ok : layout -> ntok list -> bool **)
+
+let rec sep_ok lay = function
+| [] -> true
+| x :: r ->
+  (&&)
+    (match x with
+     | NTerm (name, _) -> kw_free name
+     | NKw _ -> (match r with
+                 | [] -> true
+                 | y :: _ -> negb (styled lay y))
+     | NChr c ->
+       if (=) c '<'
+       then (match skip_blank_toks r with
+             | [] -> true
+             | y :: _ -> negb (is_kw_tok y))
+       else true
+     | _ -> true) (sep_ok lay r)
